@@ -28,12 +28,13 @@ import (
 const shimRoot = "github.com/Dash-Industry-Forum/livesim2/internal/vshim/"
 
 var (
-	outDir  = flag.String("out", "", "output directory")
-	repoDir = flag.String("repo", "/repo", "repository root")
-	hooks   = flag.Bool("hooks", true, "insert field access hooks")
-	hookExt = flag.Bool("hookext", true, "also hook fields of third-party (non-standard-library) struct types accessed in module code")
-	mapIter = flag.Bool("mapiter", true, "route map ranges through vrt.MapIter")
-	loops   = flag.Bool("loops", true, "insert vrt.Loop() at the head of every for body")
+	outDir      = flag.String("out", "", "output directory")
+	repoDir     = flag.String("repo", "/repo", "repository root")
+	hooks       = flag.Bool("hooks", true, "insert field access hooks")
+	hookGlobals = flag.Bool("hookglobals", true, "hook reads and writes of the module's package-level variables")
+	hookExt     = flag.Bool("hookext", true, "also hook fields of third-party (non-standard-library) struct types accessed in module code")
+	mapIter     = flag.Bool("mapiter", true, "route map ranges through vrt.MapIter")
+	loops       = flag.Bool("loops", true, "insert vrt.Loop() at the head of every for body")
 )
 
 type entry struct {
